@@ -20,16 +20,22 @@ Hdrs_more  == Hdrs_small \cup { <<"x-up: v w", "location: /x?y=1">>, <<"connecti
 
 Units == <<"61", "6263", "0d0a", "ff00", "30", "7a7a7a">>
 
-R(m, uri, q, hdrs, body, client) == [m |-> m, uri |-> uri, q |-> q, ver |-> "HTTP/1.1", hdrs |-> hdrs, body |-> body, client |-> client]
-Req_one == { R("GET", "/api/x", "", <<"host: h.example">>, "-", "127.0.0.1") }
-\* client requests "as in C02": methods x uris x queries x header sets x bodies, two client addresses
+R(m, uri, q, hdrs, xff, body, peer) == [m |-> m, uri |-> uri, q |-> q, ver |-> "HTTP/1.1", hdrs |-> hdrs, xff |-> xff, body |-> body, pad |-> 0, peer |-> peer]
+Req_one == { R("GET", "/api/x", "", <<"host: h.example">>, <<>>, "-", "127.0.0.1") }
+\* incoming X-Forwarded-For lists: none, 1, 2, 3 entries (IPv4 and IPv6)
+Xffs == { <<>>, <<"203.0.113.7">>, <<"203.0.113.7", "10.0.0.2">>, <<"2001:db8::1", "10.0.0.2", "192.0.2.33">> }
+\* client requests "as in C02": methods x uris x queries x header sets x incoming X-Forwarded-For x bodies, two peers
 Req_c02 ==
-  { R(m, u, q, h, "-", c) : m \in {"GET", "POST", "PUT", "DELETE", "OPTIONS"},
+  { R(m, u, q, h, x, "-", c) : m \in {"GET", "POST", "PUT", "DELETE", "OPTIONS"},
                             u \in {"/api/x", "/api/", "/api", "/api/a/b.html", "/apix"}, q \in {"", "k=v&z=%20"},
-                            h \in { <<>>, <<"host: h.example", "cookie: a=1; b=2">>, <<"x-forwarded-for: 9.9.9.9", "accept: */*">> },
+                            h \in { <<>>, <<"host: h.example", "cookie: a=1; b=2">> }, x \in Xffs,
                             c \in {"127.0.0.1", "127.0.0.9"} }
-  \cup { R(m, "/api/post", "", <<"content-length: 3", "content-type: text/plain">>, "616263", "127.0.0.1") : m \in {"POST", "PUT"} }
-Req_quick == { r \in Req_c02 : r.m \in {"GET", "POST"} /\ r.client = "127.0.0.1" }
+  \cup { R(m, "/api/post", "", <<"content-length: 3", "content-type: text/plain">>, x, "616263", "127.0.0.1") : m \in {"POST", "PUT"}, x \in Xffs }
+Req_quick == { r \in Req_c02 : r.m \in {"GET", "POST"} /\ r.peer = "127.0.0.1" /\ r.uri \in {"/api/x", "/api", "/api/post"} }
+\* requests whose body is followed by `pad` MiB of filler (the harness adds the Content-Length): 0 fits the socket
+\* buffers, 8 and 32 do not when the target never reads
+Req_pad == { [R("POST", "/api/up", "", <<"host: h.example">>, x, "6162", "127.0.0.1") EXCEPT !.pad = p] :
+               p \in {0, 8, 32}, x \in { <<>>, <<"203.0.113.7">> } }
 Routes_one == {"/api/*"}
 Routes_all == {"/api/*", "/api*", "/*", "*", "/api/x", "/a*/x"}
 
@@ -40,7 +46,7 @@ TermNow   == IF ust = "closed" THEN "eof" ELSE "stall"
 GenInv ==
   pc # "done" \/
   PrintT(ToJson([kind |-> scn.kind, g |-> scn.g, mode |-> umode, wire |-> uwire, entry |-> entry, req |-> req, route |-> route,
-                 ev |-> hist, lastin |-> lastin, took |-> now, connected |-> (scn.kind \notin {"refuse", "blackhole"}),
+                 ev |-> hist, lastin |-> lastin, took |-> now, connected |-> (scn.kind \notin {"refuse", "blackhole"}), noread |-> (scn.kind = "noread"),
                  segs |-> Delivered, term |-> TermNow,
                  exp |-> answer, base |-> Predict({}, Delivered, TermNow), fwd |-> fwd,
                  alt |-> [d \in RealDevs |-> Predict({d}, Delivered, TermNow)]]))
